@@ -137,6 +137,9 @@ pub fn gen_words(r: &mut Rng, max: usize) -> Vec<Word> {
 pub fn gen_predicate(r: &mut Rng, big: bool) -> Predicate {
     let (nn, ne) = if big {
         (*r.pick(&[0usize, 1, 999, 1000]), *r.pick(&[0usize, 1, 999, 1000]))
+    } else if r.chance(0.02) {
+        // mid-range sizes (where a chunked encoder / decoder would switch)
+        (*r.pick(&[17usize, 64, 65, 128, 255, 256, 257, 513]), *r.pick(&[16usize, 63, 64, 65, 255, 256, 257, 600]))
     } else {
         (r.below(7), r.below(9))
     };
@@ -544,9 +547,10 @@ fn c18_round(r: &mut Rng, rep: &mut Report, big: bool) {
         rep.nontrivial(crate::rng::fnv(&own_predicate_bytes(&p)));
     }
     // --- mutations
-    let ms: Vec<Mutation> = (0..r.below(5))
+    let nm = if r.chance(0.01) { *r.pick(&[17usize, 64, 65, 255, 256, 257, 1000]) } else { r.below(5) };
+    let ms: Vec<Mutation> = (0..nm)
         .map(|_| {
-            let b = big && r.chance(0.3);
+            let b = big && nm < 5 && r.chance(0.3);
             gen_mutation(r, b)
         })
         .collect();
